@@ -1,6 +1,7 @@
 -- @component loader loaderExpected
 -- @component walk walkExpected
 import Chewing.Model.Loader
+import Chewing.Model.SqliteV1
 import Chewing.Model.UhashEnc
 import Chewing.Model.TrieWalk
 import Chewing.Model.TrieCodec
@@ -13,6 +14,7 @@ import Chewing.Driver.Util
     loader cstart <dat> <uhash> => ok <dat after close> | null <dat after> | abort
     loader learn  <dat> <entry> => <dat after close>
     loader sqlstart <rows of the legacy chewing.sqlite3> => ok <dict entries> <dat after close> | err
+    loader sqlv1  V:<raw userphrase_v1 rows> => ok <rows entries() yields after the in-file migration, key-sorted> | err
     loader encbin <lifetime bytes> G:<stored records> => <file bytes> valid|invalid <live records>
     walk entries <index bytes> <dataLen> <leaf table>                    => ok <n> <syls>/<phrase>… | panic | hang
     walk lookup  <index bytes> <dataLen> <leaf table> <s|f> <first> <q>  => ok <n> <phrase>…        | panic | hang
@@ -23,6 +25,8 @@ import Chewing.Driver.Util
 with `<syls>` comma-separated codes or `-`.  The leaf table is `T:` + `;`-joined `db,de=<p>|<p>…`
 where `<p>` is an opaque phrase token (what `PhrasesIter` decodes from `data[db..de]`, exported by
 the harness — the model treats phrase decoding as a parameter).
+A raw v1 row is `<time>,<user_freq>,<max_freq>,<orig_freq>,<length>,<phone_0>,…,<phone_10>/<x-hex phrase>`
+(signed decimal, table order); the rows are `;`-joined in rowid order.
 -/
 namespace Chewing.Driver
 open Chewing
@@ -64,6 +68,16 @@ def grecOf (s : String) : Option Uhash.GRec :=
   | [sy, ph, fs, d] => some { syls := sylsOf sy, phrase := unhex ph, fields := (fs.splitOn ",").map natOf, deleted := d == "1" }
   | _ => none
 
+def intOf (s : String) : Int :=
+  if s.startsWith "-" then - ((s.drop 1).toString.toNat?.getD 0 : Nat) else (s.toNat?.getD 0 : Nat)
+
+def v1RowOf (s : String) : Option SqliteV1.V1Row :=
+  match s.splitOn "/" with
+  | [nums, ph] =>
+    let ints := (nums.splitOn ",").map intOf
+    if ints.length == 16 then some { ints := ints, phrase := unhex ph } else none
+  | _ => none
+
 end Legacy
 open Legacy
 
@@ -103,6 +117,15 @@ def loaderExpected (fn : String) (args : List String) : Option String :=
         | .panic _ => "panic"
         | .outOfFuel => "hang")
     | _ => none
+  | "sqlv1", [rows] =>
+    if rows.startsWith "V:" then
+      let rs := (splitNonEmpty (rows.drop 2).toString ";").map v1RowOf
+      if rs.all Option.isSome then
+        some (match SqliteV1.migrate (rs.filterMap id) with
+          | .ok m => "ok " ++ mapS m
+          | .error _ => "err")
+      else none
+    else none
   | "encbin", [lt, gs] =>
     let rs := (splitNonEmpty (gs.drop 2).toString ";").map grecOf
     if rs.all Option.isSome then
